@@ -79,6 +79,19 @@ def enum_primitive(n, env, fn, st):
         return None
     sh = n.get("short")
     if sh in ("insert", "emplace", "emplace_back", "push_back") and n.get("args"):
+        # only what is handed to the collector the enumerator was given counts (a parameter, possibly passed down the base
+        # chain); an insert into a local container is the function's own bookkeeping
+        rp = env.path(n["recv"]) if is_node(n.get("recv")) else None
+        is_collector = rp is not None and rp[0][0] == "$p"
+        if rp is not None and rp[0][0] == "$v":
+            # inside a helper lambda the collector is a captured parameter of the enclosing enumerator
+            outer = fn
+            while outer is not None and outer.get("lambda_parent") and not is_collector:
+                outer = env.F.fns.get(outer["lambda_parent"])
+                if outer is not None and any(p_["id"] == rp[0][1] for p_ in outer.get("params", [])):
+                    is_collector = True
+        if not is_collector:
+            return []
         a = n["args"][-1]
         base, kind = _index_member(a)
         if kind:
@@ -169,8 +182,10 @@ def run(F, chk):
             evs_e = E.events(f["id"]) if f else []
             en[kind] = set(ev.path for ev in evs_e)
             for ev in evs_e:
-                # data conditions under which the enumerator reports the path (loop-variable comparisons are not conditions)
-                g = frozenset((x[0], x[1]) for x in ev.guards if not (len(x) > 2 and x[2]))
+                # conditions under which the enumerator reports the path.  The test of a counted loop is not among the guards
+                # (it is the loop); any other condition counts, also one on a local (`if (seen.insert(r.index).second)`): an
+                # enumerator that reports a slot depending on a value it computed leaves slots out
+                g = frozenset((x[0], x[1]) for x in ev.guards)
                 en_guards.setdefault((kind, ev.path), []).append(g)
         for (p, kind), evs in sorted(sev.items(), key=lambda x: render(x[0][0])):
             n_paths += 1
